@@ -69,6 +69,8 @@ def strat(draw, prop, tier):
         st.tuples(st.just('mutate'), small, gen.obj_s(space, 1), small).map(list),
         st.tuples(st.just('observe'), small).map(list),
         st.tuples(st.just('observe'), small).map(list),
+        st.tuples(st.just('stamp'), small, small, small).map(list),
+        st.tuples(st.just('stamp'), small, small, small).map(list),
         st.tuples(st.just('draw'), st.sampled_from(['h', 'v']), small, small, small, obj).map(list),
     )
     # scripted openings (the initial world is known here, so positions are exact), followed by generated ops
@@ -229,9 +231,33 @@ def oracle_for(prop):
                     p, hd = sp[op[1] % len(sp)], op[2]
                 if M.blocks_movement(M.cell(d, p)):
                     continue
-                s.agent.position = Position(*p)
-                s.agent.orientation = objs.ori(hd)
+                how = (k + p[0] + 2 * p[1]) % 3
+                if how == 0:
+                    s.agent.position = Position(*p)
+                    s.agent.orientation = objs.ori(hd)
+                elif how == 1:
+                    # the pose is a public, mutable attribute of the agent
+                    from gym_gridverse.geometry import Transform
+                    s.agent.transform = Transform(Position(*p), objs.ori(hd))
+                else:
+                    s.agent.transform.position = Position(*p)
+                    s.agent.transform.orientation = objs.ori(hd)
                 d['agent'][0], d['agent'][1], d['agent'][2] = p[0], p[1], hd
+            elif kind == 'stamp':
+                # the very object of one cell is put into a second cell as well (a template stamped twice): what happens to one occurrence
+                # later must not happen to the other
+                sp = special_cells(d)
+                if not sp:
+                    continue
+                src = sp[op[1] % len(sp)]
+                dst = (op[2] % h, op[3] % w)
+                o = M.cell(d, src)
+                if dst == src or (dst == (d['agent'][0], d['agent'][1]) and M.blocks_movement(o)):
+                    continue
+                if any(M.obj_type(x) == 'Door' for x in M.all_objects_deep(o)):
+                    continue        # (the library opens a door by changing the door object: a door standing in two cells is one door)
+                s.grid[Position(*dst)] = s.grid[Position(*src)]
+                d['grid'][dst[0]][dst[1]] = o
             elif kind == 'observe':
                 # the owner looks at the world (an occluding observation function; when the agent faces forward the view is made to fit
                 # the grid exactly, otherwise a small view): looking changes nothing
@@ -246,8 +272,8 @@ def oracle_for(prop):
             elif kind == 'mutate':
                 # an object already in the world is changed in place through its public attributes (box content, door status, colour)
                 sp = [q for q in special_cells(d) if M.obj_type(M.cell(d, q)) in ('Box', 'Door', 'Key', 'Telepod')]
-                if not sp:
-                    continue
+                if not sp or 'stamp' in kinds:
+                    continue        # (after an object was stamped into a second cell it may also sit inside a box elsewhere: the model does not track that)
                 p = sp[op[1] % len(sp)]
                 if op[3] == 0 and M.front(d) in sp:
                     p = M.front(d)                       # (the faced object, when it is one of them)
@@ -269,7 +295,9 @@ def oracle_for(prop):
                     col = space['colors'][op[3] % len(space['colors'])]
                     new = recolour(cur, col)
                     real.color = objs.color(col)
-                d['grid'][p[0]][p[1]] = new
+                for q in M.positions(d):                      # (the object may stand in several cells: the user changed all of them)
+                    if s.grid[Position(*q)] is real:
+                        d['grid'][q[0]][q[1]] = new
             elif kind == 'hold':
                 o = op[1]
                 if o != '_' and not M.holdable(o):
@@ -306,7 +334,7 @@ def oracle_for(prop):
         if len(case['ops']) > 6 and case['ops'][2][0] == 'edit' and case['ops'][2][3] == 'B(F)' and case['ops'][5][0] == 'mutate':
             cl.append('scripted:box_content_replaced_between_steps')
         steps = [i for i, x in enumerate(kinds) if x in STEP_KINDS]
-        edits = [i for i, x in enumerate(kinds) if x in ('edit', 'edit_special', 'pose', 'pose_special', 'hold', 'draw', 'mutate')]
+        edits = [i for i, x in enumerate(kinds) if x in ('edit', 'edit_special', 'pose', 'pose_special', 'hold', 'draw', 'mutate', 'stamp')]
         if any(e > steps[0] and e < steps[-1] for e in edits) if steps else False:
             cl.append('edit_between_steps')
         for i, x in enumerate(kinds[:-2]):
@@ -323,4 +351,4 @@ def make_check(prop, quick=250, thorough=1200):
     return Check('edited_histories', oracle_for(prop), strategy=lambda tier: strat(prop, tier), examples={'quick': quick, 'thorough': thorough}, shards={'quick': 4, 'thorough': 16},
                  rule='one world x 5-16 ops: functional step, look-ahead (result dropped), in-place transition, copying transition, interleaved with user edits through the public '
                       'API (grid[pos] = obj, design.draw_line_*, box content / door status / colour of an object in place, agent pose, held item; cells addressed by Position or by tuple) and with looks at the world through occluding observation functions (view fitted to the grid when the agent faces forward), debug checks on or off: every result inside the model outcome set (projection of this property); states left behind never change',
-                 required=['edit_between_steps', 'peek_change_step', 'left_behind_then_inplace', 'op:draw', 'op:edit_special', 'op:pose_special', 'op:mutate', 'op:observe', 'debug:False', 'debug:True'] + (['scripted:drawn_door_row', 'scripted:boxed_door', 'scripted:box_content_replaced_between_steps'] if prop in ('C09', 'C10') else []))
+                 required=['edit_between_steps', 'peek_change_step', 'left_behind_then_inplace', 'op:draw', 'op:edit_special', 'op:pose_special', 'op:mutate', 'op:observe', 'op:stamp', 'debug:False', 'debug:True'] + (['scripted:drawn_door_row', 'scripted:boxed_door', 'scripted:box_content_replaced_between_steps'] if prop in ('C09', 'C10') else []))
